@@ -711,6 +711,9 @@ type hostMethod struct {
 }
 
 func (m *hostMethod) call(i *Interp, fr *frame, args []value) value {
+	if eo, ok := m.recv.x.(engineObj); ok {
+		return eo.callMethod(fr, m.name, args)
+	}
 	rv := reflect.ValueOf(m.recv.x)
 	mv := rv.MethodByName(m.name)
 	if !mv.IsValid() {
@@ -813,7 +816,7 @@ func (i *Interp) protectedCall(fr *frame, fn reflect.Value, in []reflect.Value, 
 			case internalError:
 				panic(r)
 			}
-			panic(targetPanic{iface{t: i.errType, v: fmt.Sprintf("%s: %v", name, r)}})
+			panic(targetPanic{iface{t: i.errType, v: fmt.Sprintf("%s: %v", name, r)}, fr.stack()})
 		}
 	}()
 	return fn.Call(in)
@@ -861,9 +864,6 @@ func hostGlobal(i *Interp, g *ssa.Global) bool {
 	hv, ok := hostGlobals[key]
 	if !ok {
 		return false
-	}
-	if _, ok := i.globals[g]; !ok {
-		i.allocGlobals(g.Pkg)
 	}
 	*i.globals[g] = i.fromHost(reflect.ValueOf(hv).Elem(), deref(g.Type()))
 	return true
